@@ -8,7 +8,7 @@ from ..oracle import canonical_dir_oid
 RULE = (
     "every (ancestor, ours, theirs) triple of listings over a key universe with nested keys, each key absent or carrying one of "
     "two values, under 5 allowed-operation policies; both argument orders are members of the enumeration and are compared with "
-    "each other; plus random triples over 6 keys and merge() through a real store; non-trivial = at least one side differs from "
+    "each other; plus random triples over 6 keys and merge() through a real store (sides built fresh or derived by loading the ancestor's object and adding to it; entries deleted by both sides next to one-sided deletions; earlier merges of the same objects under other policies); non-trivial = at least one side differs from "
     "the ancestor; distinct = (ancestor, ours, theirs, policy)"
 )
 ASSUMPTIONS = [
@@ -16,7 +16,7 @@ ASSUMPTIONS = [
     "per-key three-way rule: a path takes the side that changed it, or the common value when both agree; otherwise conflict",
 ]
 MONITORS = "outcome of tree._merge / tree.merge compared with an independent per-key three-way merge"
-REQUIRED_COUNTERS = ["non_canonical_stored_listings", "policy_sequences", "ancestor_unavailable_cases", "merge_calls", "accepted", "refused", "order_pairs_compared", "merge_via_store"]
+REQUIRED_COUNTERS = ["common_deletion_cases", "sides_derived_from_loaded_ancestor", "non_canonical_stored_listings", "policy_sequences", "ancestor_unavailable_cases", "merge_calls", "accepted", "refused", "order_pairs_compared", "merge_via_store"]
 EXHAUSTIVE = {"quick": True, "thorough": True}
 
 POLICIES = [None, ["add"], ["add", "remove"], ["add", "change"], ["add", "remove", "change"]]
@@ -277,8 +277,33 @@ def run_shard(ctx):
                 ours = {"a": f"{1:032x}"}
             if not theirs:
                 theirs = {"a": f"{1:032x}"}
+            if with_anc and pol is not None and "remove" in pol and anc and rng.random() < 0.35:
+                # an entry that both sides deleted (next to whatever else each side did)
+                for n in rng.sample(sorted(anc), min(len(anc), rng.randrange(1, 3))):
+                    ours.pop(n, None)
+                    theirs.pop(n, None)
+                res.count("common_deletion_cases")
+                if not ours:
+                    ours = {"a": f"{1:032x}"}
+                if not theirs:
+                    theirs = {"a": f"{1:032x}"}
             a_hi = mk(anc) if with_anc else None
-            o_hi, t_hi = mk(ours), mk(theirs)
+
+            def mk_side(listing):
+                if with_anc and anc and all(k in listing for k in anc) and rng.random() < 0.5:
+                    # the side is derived the way an application would: load the ancestor's object, add / replace entries, store the result
+                    t = Tree.load(odb, a_hi)
+                    for rel, dg in listing.items():
+                        if anc.get(rel) != dg:
+                            # (metadata as a re-loaded listing would carry it)
+                            t.add(tuple(rel.split("/")), Meta(md5=dg) if rng.random() < 0.7 else Meta(size=3), HashInfo("md5", dg))
+                    t.digest()
+                    odb.add(t.path, t.fs, t.oid)
+                    res.count("sides_derived_from_loaded_ancestor")
+                    return t.hash_info
+                return mk(listing)
+
+            o_hi, t_hi = mk_side(ours), mk_side(theirs)
             res.evaluated()
             res.count("merge_via_store")
             res.nontrivial("store", sorted(anc.items()), sorted(ours.items()), sorted(theirs.items()), pol)
@@ -305,6 +330,9 @@ def run_shard(ctx):
                         merge(odb, a_hi, o_hi, t_hi, allowed=pre_pol)
                     except Exception:  # noqa: BLE001
                         pass
+            if rng.random() < 0.5:
+                # the other argument order (the three-way rule is symmetric)
+                o_hi, t_hi, ours, theirs = t_hi, o_hi, theirs, ours
             try:
                 merged = merge(odb, a_hi, o_hi, t_hi, allowed=pol)
             except MergeError:
